@@ -306,6 +306,8 @@ def crash_family(res, ctx, tag, kinds, n_quick, n_thorough, io_mix=(0, 0, 0, 0, 
         i, kind, io, ops, cfg = it
         # every recovery of a memory-mapped image reads its zero extension (about a second): sampled cuts only
         cuts = cuts_quick if (ctx.quick or (io == 1 and cuts_thorough == "all")) else cuts_thorough
+        if tag == "C07" and ctx.quick and kind == "merge-multi":
+            cuts = "none"      # quick tier: power-loss cuts (torn active file + pending adoption) only on the short merge workloads
         recs, err, rc = crashcheck.run_crash(ctx, ops, mode="io", cuts=cuts, from_op=froms.get(i, 0),
                                              dumpfiles=True, level2=level2, timeout=1800, postmerge=postmerge)
         return recs, err, rc
@@ -549,7 +551,7 @@ def check_C06(res, ctx):
 
 
 def check_C07(res, ctx):
-    crash_family(res, ctx, "C07", ["merge-multi", "merge", "merge-multi"], 6, 120, io_mix=(0, 0, 0, 0, 0, 0, 0, 0, 0, 0, 0, 1), cuts_quick="none", cuts_thorough="none",
+    crash_family(res, ctx, "C07", ["merge-multi", "merge", "merge-multi"], 6, 120, io_mix=(0, 0, 0, 0, 0, 0, 0, 0, 0, 0, 0, 1), cuts_quick="few", cuts_thorough="few",
                  level2=not ctx.quick, postmerge=True)
     return "every I/O event and every crash point (merge phases, each rename / remove / hint move / marker removal / directory removal of the " \
            "adoption step) of histories with Merge and restarts is a crash image; each image is reopened once and twice and must show exactly the " \
